@@ -72,6 +72,15 @@ pub fn leaf_cv(code: u64, dom: u64, depth: u32) -> CV {
                 CV::num(v)
             }
         }
+        8 if r.chance(1, 3) => {
+            // a flat array of integers or of texts, unsorted and with repeats
+            let n = r.range(2, 5);
+            if r.chance(1, 2) {
+                CV::A((0..n).map(|_| CV::U(*r.pick(&[3u64, 1, 2, 100, 10, 7, 7, 65536, 0]))).collect())
+            } else {
+                CV::A((0..n).map(|_| CV::T(r.pick(&["b", "a", "c", "a", "B", ""]).to_string())).collect())
+            }
+        }
         8 => {
             if depth >= 2 {
                 return CV::U(r.below(50));
